@@ -13,6 +13,7 @@ def run(ck):
         conslib.quorum_design(ck, ["MCQ_c01_r0", "MCQ_c01", "MCQ_skew"], ["MCQ_atbound", "MCQ_mutHalf"], timeout=2400)
     if not quick:
         conslib.refinement_check(ck, 160, seed=ck.seed)
+        conslib.refinement_check(ck, 80, model="nest3", seed=ck.seed + 1)   # nested inputs: late QUALITY quorums, prefix candidates
     # (D) per-message model by simulation; the schedules TLC chose are replayed on the real participants below
     hists = conslib.permsg_design(ck, "c01", "fork", 120 if quick else 3000, maxround=2)
     # (T) seeded runs of real participants, clause C01_Agreement evaluated by TLC on every reported decision
